@@ -48,6 +48,14 @@ def run(ck):
                                                        "poll_interval": 100.0 if i % 4 == 1 else 0.3},
                           "strat": ["random", rng.randrange(10 ** 9), 0.5], "gran": "sync",
                           "facts": {"kind": kind, "hist": "+".join(sorted(set(hist)))}})
+    # ... every kind of cancellation as the LAST thing that happens (nothing afterwards wakes the worker thread up)
+    for kind in KINDS:
+        for last in ["cancel_queued", "cancel_inflight", "xcancel"] + (["cancel_between"] if kind == "retry" else []):
+            for hist in ([last], ["ok", last], ["fail", last]):
+                tasks.append({"scen": "reclaim", "params": {"kind": kind, "mode": "refs", "hist": hist, "poll_returns": None,
+                                                           "poll_interval": 0.3},
+                              "strat": ["random", rng.randrange(10 ** 9), 0.5], "gran": "sync",
+                              "facts": {"kind": kind, "hist": "+".join(sorted(set(hist))), "directed": True}})
     ck.run_and_validate(tasks, TRACE, nontrivial=lambda t, r: True)
     # the other direction: the user keeps the finished futures and drops the executor without shutdown()
     tasks = []
